@@ -44,31 +44,41 @@ type ghostExit struct {
 
 // ---- flags override the first instance, and nonsense flag values are refused (C01, C07, C09) ----
 
+//@ define absent(err) err == errorx.ErrOK
 //@ func getBPM returns (b, err)
 //@   pure
-//@   ensures err == nil ==> b != 0
+//@   ensures flagint("bpm") == 0 ==> absent(err)
+//@   ensures flagint("bpm") != 0 ==> err == nil && b == flagint("bpm")
 
 //@ func getVelocity returns (d, err)
 //@   pure
-//@   ensures err == nil ==> op.validDyn(d)
+//@   ensures flagstr("velocity") == "" ==> absent(err)
+//@   ensures flagstr("velocity") != "" ==> (err == nil) == (op.dynOf(flagstr("velocity")) != op.UnknownDynamicSign)
+//@   ensures flagstr("velocity") != "" && err == nil ==> d == op.dynOf(flagstr("velocity")) && op.validDyn(d)
+//@   ensures flagstr("velocity") != "" && err != nil ==> !errIs(err, errorx.ErrOK)
 
 //@ func getMeter returns (m, err)
 //@   pure
+//@   ensures flagstr("meter") == "" ==> absent(err)
+//@   ensures flagstr("meter") != "" && err != nil ==> !errIs(err, errorx.ErrOK)
 //@   ensures err == nil ==> m.Num >= 1 && m.Denom >= 1
 
 //@ func getKey returns (k, err)
 //@   pure
+//@   ensures flagstr("key") == "" ==> absent(err)
+//@   ensures flagstr("key") != "" && err != nil ==> !errIs(err, errorx.ErrOK)
 
-// each setting is either left as the document has it or replaced by a valid value given on the command line
+// every setting given on the command line replaces the document's, with a valid value; a setting not given is
+// left as the document has it; a nonsense value is an error
 //@ func overrideInstanceFromFlags returns (err)
 //@   modifies instance
 //@   allocs op.BPM, op.DynamicSign, op.Meter, op.Key
 //@   requires instance != nil
 //@   ensures instance.Chord == old(instance.Chord) && instance.Values == old(instance.Values) && instance.Meta == old(instance.Meta)
-//@   ensures err == nil ==> instance.BPM == old(instance.BPM) || (instance.BPM != nil && fresh(instance.BPM) && *instance.BPM != 0)
-//@   ensures err == nil ==> instance.Velocity == old(instance.Velocity) || (instance.Velocity != nil && fresh(instance.Velocity) && op.validDyn(*instance.Velocity))
-//@   ensures err == nil ==> instance.Meter == old(instance.Meter) || (instance.Meter != nil && fresh(instance.Meter) && instance.Meter.Num >= 1 && instance.Meter.Denom >= 1)
-//@   ensures err == nil ==> instance.Key == old(instance.Key) || (instance.Key != nil && fresh(instance.Key))
+//@   ensures err == nil ==> ite(flagint("bpm") != 0, instance.BPM != nil && fresh(instance.BPM) && *instance.BPM == flagint("bpm"), instance.BPM == old(instance.BPM))
+//@   ensures err == nil ==> ite(flagstr("velocity") != "", instance.Velocity != nil && fresh(instance.Velocity) && *instance.Velocity == op.dynOf(flagstr("velocity")) && op.validDyn(*instance.Velocity), instance.Velocity == old(instance.Velocity))
+//@   ensures err == nil ==> ite(flagstr("meter") != "", instance.Meter != nil && fresh(instance.Meter) && instance.Meter.Num >= 1 && instance.Meter.Denom >= 1, instance.Meter == old(instance.Meter))
+//@   ensures err == nil ==> ite(flagstr("key") != "", instance.Key != nil && fresh(instance.Key), instance.Key == old(instance.Key))
 
 // the dictionary (built-ins plus --attr/--chord files): read through yaml, assumed to return a dictionary or an error
 //@ func newChordMap returns (m, err)
